@@ -624,11 +624,16 @@ def pick_variants(doc, rng, budget):
 
 def inject_cycle(u, rng, g):
     """make a generated universe genuinely cyclic; returns the kind"""
-    kinds = ['alias', 'computed']
+    kinds = ['alias', 'computed', 'weak-hidden-function']
     if sum(1 for f in u.fns if f.params[0][1] == 'str') >= 2:
         kinds.append('function')
     k = rng.choice(kinds)
-    if k == 'alias':
+    if k == 'weak-hidden-function':
+        if not g.weak_cycle(hidden=True):
+            k = 'alias'
+    if k == 'weak-hidden-function':
+        pass
+    elif k == 'alias':
         m = rng.choice(u.mods)
         a, b = (m, g.fresh('AX')), (rng.choice(u.mods), g.fresh('AY'))
         u.aliases.append((a, G.Sel_alias(b)))
@@ -648,6 +653,98 @@ def inject_cycle(u, rng, g):
         f1.body = G.Call(f2.mod, f2.name, [G.Raw('a')])
         f2.body = G.Call(f1.mod, f1.name, [G.Raw('a')])
     return k
+
+
+# ---------------------------------------------------------------- weak-edge families
+# Deterministic documents in which a WEAK dependency (a path the tracer cannot type, hence a
+# weak reference to every pointer of that name) closes a cycle whose hard part is >= 2 edges
+# long, or sits in front of a genuine hard cycle.  `sort_ex` must (a) still emit every hard
+# dependency first and (b) still report the genuine cycle, in EVERY declaration order.
+def _weak_universe(form, variant):
+    u = G.Universe(['default'])
+    U = G.TypeInfo('default', 'WU')
+    U.own['nxt'] = G.PtrInfo('nxt', 'prop', 'str')
+    A = G.TypeInfo('default', 'WA')
+    h = G.PtrInfo('h', 'prop', 'str', multi=True)
+    h.computed = G.Unknown(G.ObjRef(U.key), 'nxt', form)
+    A.own['h'] = h
+    T = G.TypeInfo('default', 'WT')
+    u.types += [U, A, T]
+    use_h = G.Cast('str', G.Call(None, 'count', [G.Path(A, [('p', 'h')])]))
+
+    def fn(name, body):
+        f = G.FnInfo('default', name, [('a', 'str')], 'str', body, len(u.fns))
+        u.fns.append(f)
+        return f
+    nxt = G.PtrInfo('nxt', 'prop', 'str', multi=True)
+    T.own['nxt'] = nxt
+    if variant == 'chain2':            # WA@h ~> WT@nxt -> wf -> WA@h
+        fn('wf', G.Op('++', G.Raw('a'), use_h))
+        nxt.computed = G.Call('default', 'wf', [G.Lit('x')])
+    elif variant == 'chain3':          # WA@h ~> WT@nxt -> wf1 -> wf2 -> WA@h
+        fn('wf2', G.Op('++', G.Raw('a'), use_h))
+        fn('wf1', G.Op('++', G.Call('default', 'wf2', [G.Raw('a')]), G.Lit('1')))
+        nxt.computed = G.Call('default', 'wf1', [G.Lit('x')])
+    elif variant == 'global':          # WA@h ~> WT@nxt -> wg (computed global) -> wf -> WA@h
+        fn('wf', G.Op('++', G.Raw('a'), use_h))
+        u.globs.append((('default', 'wg'), G.Call('default', 'wf', [G.Lit('g')])))
+        nxt.computed = G.Op('??', G.Cast('str', G.Glob(('default', 'wg'))), G.Lit('n'))
+    elif variant == 'hidden-fn-cycle':     # WA@h ~> WT@nxt -> wf <-> wg   (genuinely cyclic)
+        fn('wf', G.Op('++', G.Call('default', 'wg', [G.Raw('a')]), G.Lit('f')))
+        fn('wg', G.Op('++', G.Call('default', 'wf', [G.Raw('a')]), G.Lit('g')))
+        nxt.computed = G.Call('default', 'wf', [G.Lit('x')])
+    elif variant == 'hidden-computed-cycle':   # WA@h ~> WT@nxt -> WT@c1 <-> WT@c2
+        c1 = G.PtrInfo('c1', 'prop', 'str', multi=True)
+        c2 = G.PtrInfo('c2', 'prop', 'str', multi=True)
+        c1.computed = G.Op('++', G.Path(None, [('p', 'c2')]), G.Lit('1'))
+        c2.computed = G.Op('++', G.Path(None, [('p', 'c1')]), G.Lit('2'))
+        nxt.computed = G.Op('++', G.Path(None, [('p', 'c1')]), G.Lit('n'))
+        T.own['c1'] = c1
+        T.own['c2'] = c2
+    else:
+        raise AssertionError(variant)
+    return u
+
+
+WEAK_FAMILIES = [
+    # (label, untyped form, variant, expected outcome in every order)
+    ('chain2-union', 'union', 'chain2', 'ok'),
+    ('chain2-distinct', 'distinct', 'chain2', 'ok'),
+    ('chain2-assert', 'assert_exists', 'chain2', 'ok'),
+    ('chain2-ifelse', 'ifelse', 'chain2', 'ok'),
+    ('chain3-coalesce', 'coalesce', 'chain3', 'ok'),
+    ('global-union', 'union', 'global', 'ok'),
+    ('hidden-fn-cycle', 'union', 'hidden-fn-cycle', 'cycle'),
+    ('hidden-computed-cycle', 'distinct', 'hidden-computed-cycle', 'cycle'),
+]
+
+
+def weak_family_doc(label, form, variant):
+    u = _weak_universe(form, variant)
+    b = G.Builder(u, random.Random(0), cg, cg_params)
+    doc = G.Doc([G.Block('default', 'default', b.nodes())], label=f'weak:{label}')
+    doc.meta.update(size='family', cyclic=None, family=label)
+    return doc
+
+
+def family_variants(doc, rng, budget):
+    """ALL orders of the declarations of the (single) module block when <= 5 of them (else
+    `budget` random ones), each combined with a shuffle of the bodies"""
+    ents = G.sites(doc, 'module')[0]
+    n = len(ents)
+    perms = list(itertools.permutations(range(n)))[1:]
+    full = n <= 5 or len(perms) <= budget
+    if not full:
+        rng.shuffle(perms)
+        perms = perms[:budget]
+    out = []
+    for p in perms:
+        d = G.copy_doc(doc)
+        G.apply_perm(G.sites(d, 'module')[0], p)
+        for sbody in G.sites(d, 'body'):
+            rng.shuffle(sbody)
+        out.append((f'module[0]:{",".join(map(str, p))}', 'module', d))
+    return out, {'module': full}
 
 
 def gen_doc(rng, size, cyclic=False):
@@ -744,10 +841,10 @@ def run(ctx: core.Ctx):
 def plans(quick: bool):
     """(size, permutations per document) for acyclic and injected-cycle documents.
     Measured: one load costs 0.1 s (10 nodes) .. 6 s (80 nodes with many expressions);
-    quick stays around 430 generated loads + 380 probe loads (1-1.5 min on an idle 16-core
-    machine, ~3 min when the machine is shared)."""
+    quick stays around 350 generated loads + 460 weak-edge-family loads (all declaration
+    orders) + 380 probe loads: 1.5-2 min on an idle 16-core machine, ~3 min when it is shared."""
     if quick:
-        return ([('tiny', 16)] * 18 + [('small', 10)] * 8 + [('large', 4)] * 2,
+        return ([('tiny', 16)] * 16 + [('small', 10)] * 6 + [('large', 4)] * 1,
                 [('tiny', 5)] * 3 + [('small', 4)] * 1)
     return ([('tiny', 60)] * 100 + [('small', 30)] * 50 + [('large', 10)] * 12,
             [('tiny', 16)] * 24 + [('small', 10)] * 8)
@@ -786,6 +883,10 @@ def _run(ctx, pool, proved):
         docs.append((gen_doc(rng, size), budget))
     for size, budget in cyc_plan:
         docs.append((gen_doc(rng, size, cyclic=True), budget))
+    fam_expect = {}
+    for label, form, variant, expect in WEAK_FAMILIES:
+        docs.append((weak_family_doc(label, form, variant), 120 if quick else 720))
+        fam_expect[len(docs) - 1] = (label, expect)
 
     tasks, lines, index = [], [], []          # index[i] = (doc idx, variant idx, label, level)
     nums, bases, exh = [], [], []
@@ -794,7 +895,10 @@ def _run(ctx, pool, proved):
         nums.append(num)
         base_sdl = G.render(doc)
         bases.append(base_sdl)
-        vs, ex = pick_variants(doc, rng, budget)
+        if doc.meta.get('family'):
+            vs, ex = family_variants(doc, rng, budget)
+        else:
+            vs, ex = pick_variants(doc, rng, budget)
         exh.append(ex)
         allv = [('identity', 'identity', doc)] + vs
         delta_sample = set(rng.sample(range(1, len(allv)), min(1 if quick else 6, len(allv) - 1))) \
@@ -826,7 +930,7 @@ def _run(ctx, pool, proved):
         per_doc.setdefault(di, []).append((vi, label, level, task[1], res))
         level_hist[level] = level_hist.get(level, 0) + 1
         mmin, mmax = parse_model(m1, nums[di]), parse_model(m2, nums[di])
-        key = f'{sha(bases[di])}'
+        key = docs[di][0].label or sha(bases[di])
         if mmin is None or mmax is None:
             ctx.fail(f'corr:{key}', 'driver rejected the document line', {'sdls': [task[1]], 'model': [m1[:200], m2[:200]]},
                      no_input=True)
@@ -881,10 +985,21 @@ def _run(ctx, pool, proved):
     # ------------------------------------------------ oracle: equality across permutations
     n_equal_groups = 0
     n_explicit_only = 0
+    fam_hist = {}
     for di, vs in per_doc.items():
         vs.sort()
         base = vs[0][4]
-        key = sha(bases[di])
+        key = docs[di][0].label or sha(bases[di])
+        if di in fam_expect:
+            flabel, expect = fam_expect[di]
+            got = sorted({outcome_sig(r)[0] for *_x, r in vs})
+            fam_hist[flabel] = got
+            if got != [expect]:
+                bad = next((x for x in vs if outcome_sig(x[4])[0] != expect))
+                ctx.fail(f'weak:{flabel}:verdict',
+                         f'weak-edge family: expected {expect} in every declaration order, got {got} '
+                         f'({sum(1 for x in vs if outcome_sig(x[4])[0] != expect)} of {len(vs)} orders differ)',
+                         {'sdls': [bad[3]], 'errs': [bad[4]['err']], 'label': bad[1]})
         outs = {}
         for vi, label, level, sdl, res in vs:
             outs.setdefault(outcome_sig(res), []).append((vi, label, sdl, res))
@@ -1020,6 +1135,7 @@ def _run(ctx, pool, proved):
         'emitted_orders_compared': n_order_cmp,
         'delta_schemas_pairs': n_delta,
         'model_incomplete_documents': incomplete,
+        'weak_edge_families': fam_hist,
         'probes': probe_hist, 'cycle_families': cyc_hist, 'model_families_compared': len(MODEL_FAMILIES),
         'disagreements_model_vs_impl': n_dis,
         'exhaustive': False,
